@@ -119,8 +119,17 @@ def check_case(ctx, text, doc, cls):
                 ctx.violation("async-match-pairs-a-location-with-another-node's-value", case, {"text": text, "latencies": "shrinking" if shrinking else "random", "first_wrong_match": repr(bad)[:300] if am.ok else am.desc(), "sync": repr(want[:4])[:300]})
                 return
     sel = ms if len(ms) <= 25 else ms[:10] + ctx.rng.sample(ms[10:], 15)
-    new = {"NEW": ["replacement", 424242]}
+    new_default = {"NEW": ["replacement", 424242]}
     for m in sel:
+        # (now and then a replacement value that not every way of copying a value can carry: integers beyond the interpreter's
+        # int/str digit limit, nesting of a few hundred levels, a tuple)
+        new = new_default
+        if ctx.rng.random() < 0.2:
+            deep = []
+            for _ in range(ctx.rng.choice([50, 200, 300])):
+                deep = [deep]
+            new = ctx.rng.choice([10 ** 4400, [-(10 ** 5000), {"k": 10 ** 4301}], deep, {"t": (1, 2)}, 1e308, "", None, {"": {"": []}}])
+            ctx.count("replacements_with_values_that_are_hard_to_copy")
         parts = tuple(m.parts)
         classes = {gen.name_class(p) if isinstance(p, str) else "index" for p in parts} or {"root"}
         ptr = impl.call(m.pointer)
